@@ -345,7 +345,7 @@ pub fn json_to_js_value_with_guard(
             let obj = interp.create_object(guard);
             for (key, value) in map {
                 let js_value = json_to_js_value_with_guard(interp, value, guard)?;
-                let interned_key = PropertyKey::String(interp.intern(key));
+                let interned_key = interp.property_key(key);
                 obj.borrow_mut().set_property(interned_key, js_value);
             }
             JsValue::Object(obj)
